@@ -352,12 +352,48 @@ def pack_keys(thorough):
 EXCLUDED = {}
 
 
+def _user_job(pack):
+    from checks import c02_usergen as G
+    try:
+        return G.run_pack(pack)
+    except SystemExit:
+        return dict(compile_failed=True)
+
+
+def _any_job(job):
+    kind, arg = job
+    return _shipped_job(arg) if kind == 'shipped' else _user_job(arg)
+
+
 def run(ctx):
+    from checks import c02_usergen as G
     packs = pack_keys(ctx.thorough)
-    res = map_jobs(_shipped_job, packs, ctx.ncpu, job_timeout=3000)
+    upacks = G.packs(ctx.thorough, ctx.seed)
+    # the big symbol packs first (longest compile)
+    jobs = [('user', u) for u in upacks] + [('shipped', p) for p in packs]
+    allres = map_jobs(_any_job, jobs, ctx.ncpu, job_timeout=3000)
+    res = allres[len(upacks):]
     viol = {}
     covered = []
     notcov = []
+    nuser = nuval = nucls = 0
+    for up, r in zip(upacks, allres[:len(upacks)]):
+        tag = '%s:%s:%dd' % (up['kind'], up['kernel'], up['dim'])
+        if isinstance(r, Crash):
+            viol.setdefault('equations:user:pack-crash:%s' % up['kind'],
+                            (r.reason, dict(pack=up)))
+            continue
+        if r.get('compile_failed'):
+            viol.setdefault('equations:user:compile-failed:%s' % up['kind'], (
+                'generated module for a pack of user-style equations does '
+                'not compile (%s)' % tag, dict(pack=up)))
+            continue
+        nuser += r['programs']
+        nuval += r['values']
+        nucls += r['classes']
+        for name, kind, what in r['probs']:
+            viol.setdefault('equations:user:%s:%s' % (kind, name.split(
+                '(')[0]), (what, dict(pack=up, name=name)))
     for pk, r in zip(packs, res):
         if isinstance(r, Crash):
             for k in pk:
@@ -378,7 +414,11 @@ def run(ctx):
             viol.setdefault('equations:shipped:%s' % key.split('pysph.sph.')[
                 -1], (what, dict(key=key)))
     vs = [Violation(k, w, rep) for k, (w, rep) in sorted(viol.items())]
-    cov = dict(programs=len(covered), disagreements_checked=len(covered),
+    cov = dict(programs=len(covered) + nuser,
+               disagreements_checked=len(covered) + nuser,
+               shipped_programs=len(covered), user_programs=nuser,
+               user_classes=nucls, user_values_compared=nuval,
+               user_packs=len(upacks),
                exact_class=sum(1 for k, e in covered if e),
                tolerance_class=sum(1 for k, e in covered if not e),
                not_covered=sorted(set((k, w) for k, w in notcov)),
@@ -391,7 +431,18 @@ def run(ctx):
                     'distinct non-round values in every property; all '
                     'properties and constants compared: bit equality for '
                     'arithmetic-only methods, 1e-12 relative where libm or '
-                    '** is used')
+                    '** is used.  User-style grammar (checks/c02_usergen.py): '
+                    'S = each of the 21 precomputed pair symbols (and a ring '
+                    'of symbol pairs; thorough: all pairs) x every kernel x '
+                    'dim 1-3 x 3 wirings, every per-pair value stored in its '
+                    'own slot; B = every ordered pair of terminals (typed / '
+                    'strided properties, constants, attributes, t, dt, XIJ, '
+                    'literal) x {+,-,*,/} in each of 5 hooks; F = feature '
+                    'templates (declared matrices/ints, loops, branches, '
+                    'helpers, attributes changed after construction, typed '
+                    'writes, reduce, libm, SPH_KERNEL in loop_all) and all '
+                    'ordered 2-3 equation groups of three non-commuting '
+                    'equations with/without sources')
     assumptions = ['classes the value table cannot instantiate, or whose '
                    'methods cannot run in pure Python (compiled-only '
                    'helpers, out-of-range index caught by the bounds-'
@@ -401,6 +452,11 @@ def run(ctx):
 
 
 def replay(ctx, obj):
+    if 'pack' in obj:
+        r = _user_job(obj['pack'])
+        bad = r.get('compile_failed') or any(
+            n == obj.get('name') for n, k, w in r.get('probs', []))
+        return dict(violates=bool(bad), problems=r.get('probs', [])[:5])
     r = _shipped_job([obj['key']])
     return dict(violates=bool(r.get('probs')), result={k: v for k, v in
                                                         r.items()})
